@@ -220,13 +220,16 @@ def check(pid, tier, seed):
     ok += check_single(tool, base, verdict)
     exe = core.build("asan")
     ok += check_random_single(tool, exe, rnd, 300 if tier == "quick" else 5000, base, verdict)
+    # beyond the property: the commands that change the tree (ToolEdit.tla, MC_ToolEdit, replay)
+    from . import p_tooledit
+    edit_cov = p_tooledit.check_edit(tool, tier, rnd, base, verdict)
     rc = verdict.finish()
-    cov = {"states": r.distinct, "transitions": r.generated, "traces_validated_against_impl": ok,
+    cov = {"edit_revert": edit_cov, "states": r.distinct, "transitions": r.generated, "traces_validated_against_impl": ok,
            "evaluations": len(recs) * 3, "distinct_nontrivial": nn,
            "rule": "MC_Tool exports every two-layer tree (main x4 per layer x subsets of %s drop-in names per layer) x content shapes {both, group-less only, sections only, header-only section in the main file, drop-ins holding only comments} x {no malformed file, each consulted regular file malformed (missing bracket, text after the section, empty section name in turn)}; %d trees materialised under $ECONFTOOL_ROOT (/usr/etc, /etc; every second root some 330 bytes deep with blanks, delimiter, comment, bracket and format characters in its name) under the configuration names cfg, org.example.app, a.b, x-1_y in turn, with delimiter '=', ':' (--delimiters) and blanks (--delimiters=spaces); the built econftool runs show, syntax, cat (stdbuf keeps stdout/stderr order); stdout parsed into (section, key, value lines) triples and compared as sets with Tool!ShowCmd / CatCmd, exit status with SyntaxCmd, error location = malformed file + line; plus single absolute files (hand-written and random ones incl. sections that are closed and opened again; every (section, key) of a random file is also asked for BY NAME through the library and must be printed); the ASan/UBSan build of the tool runs show on every tree. non-trivial = result with group-less keys or >= 2 sections or a malformed file." % (names, len(recs)),
            "samples": [{"tree": p_layers.tree_text({"main": recs[5]["main"], "drop": recs[5]["drop"], "shp": recs[5]["shp"]}), "show": recs[5]["show"]}],
            "exhaustive": False, "trusted_base": ["TLC 1.8.0", "gcc (plain and ASan/UBSan builds of util/econftool.c + lib)", "coreutils stdbuf"]}
-    core.write_evidence(pid, tier, seed, "model_checking", cov, ["the printed layout is not compared, only the parsed triples", "edit/revert are not part of the property"], time.time() - t0, len(verdict.violations))
+    core.write_evidence(pid, tier, seed, "model_checking", cov, ["the printed layout is not compared, only the parsed triples", "edit/revert are not part of the property; they are modelled and replayed all the same (coverage.edit_revert), run as root with --yes and the default delimiter / comment characters"], time.time() - t0, len(verdict.violations))
     return rc
 
 
@@ -344,6 +347,19 @@ def check_single(tool, base, verdict):
                               "econftool show %s (content %r): printed %s, library delivers %s" % (name, content, sorted(got), sorted(want)))
         else:
             ok += 1
+    # a merged tree whose values are the library's own marker word: values like any other
+    os.makedirs(R + "/root/usr/etc", exist_ok=True)
+    os.makedirs(R + "/root/etc/mk.conf.d", exist_ok=True)
+    open(R + "/root/usr/etc/mk.conf", "w").write("a=_none_\n[S]\nb=_none_\n")
+    open(R + "/root/etc/mk.conf.d/x.conf", "w").write("c=1\n[S]\nd=_none_\n")
+    rc, text = run_tool(tool, R + "/root", ["show", "mk.conf"])
+    got = set().union(*[b[1] for b in parse_blocks(text)]) if text else set()
+    want = {("", "a", ("_none_",)), ("", "c", ("1",)), ("S", "b", ("_none_",)), ("S", "d", ("_none_",))}
+    if rc != 0 or got != want:
+        verdict.violation("C19:single:marker-values", {"kind": "single", "got": sorted(got), "want": sorted(want)},
+                          "econftool show on a two-file tree with the values `_none_`: exit %d, printed %s, the library delivers %s" % (rc, sorted(got), sorted(want)))
+    else:
+        ok += 1
     p = R + "/bad.conf"
     open(p, "w").write("a=1\n\n[x\n")
     rc, text = run_tool(tool, R + "/root", ["syntax", p])
